@@ -187,7 +187,7 @@ func TextTransform(text string, r *rand.Rand, n int) (string, string, []string) 
 	lines := strings.Split(strings.TrimSuffix(text, "\n"), "\n")
 	var word []string
 	for k := 0; k < n; k++ {
-		switch r.Intn(7) {
+		switch r.Intn(8) {
 		case 0: // '#' line at a random place that is not directly above a header
 			pos := r.Intn(len(lines) + 1)
 			if pos < len(lines) && strings.HasPrefix(lines[pos], "@") && isOpeningHeader(lines, pos) {
@@ -253,6 +253,35 @@ func TextTransform(text string, r *rand.Rand, n int) (string, string, []string) 
 					break
 				}
 			}
+		case 6: // blank line inside the diff of a change (preferably right behind an elision that stands on a line of its own)
+			var body, afterDots []int
+			inBody := false
+			for i, l := range lines {
+				if strings.HasPrefix(l, "@") {
+					inBody = !isOpeningHeader(lines, i)
+					continue
+				}
+				if strings.HasPrefix(strings.TrimSpace(l), "#") || !inBody || l == "" {
+					continue
+				}
+				body = append(body, i)
+				if len(l) > 1 && strings.TrimSpace(l[1:]) == "..." {
+					afterDots = append(afterDots, i)
+				}
+			}
+			cands := body
+			if len(afterDots) > 0 && r.Intn(3) > 0 {
+				cands = afterDots
+			}
+			if len(cands) == 0 {
+				continue
+			}
+			pos := cands[r.Intn(len(cands))] + 1
+			if inRawString(lines[:pos]) {
+				continue
+			}
+			lines = append(lines[:pos], append([]string{""}, lines[pos:]...)...)
+			word = append(word, "blank-in-diff")
 		default:
 			word = append(word, "id")
 		}
@@ -293,4 +322,13 @@ func isOpeningHeader(lines []string, i int) bool {
 
 func isIdentByte(b byte) bool {
 	return b == '_' || b >= 'a' && b <= 'z' || b >= 'A' && b <= 'Z' || b >= '0' && b <= '9' || b >= 0x80
+}
+
+// inRawString reports whether the text ends inside a raw string literal (an odd number of back quotes).
+func inRawString(lines []string) bool {
+	n := 0
+	for _, l := range lines {
+		n += strings.Count(l, "`")
+	}
+	return n%2 == 1
 }
